@@ -1660,6 +1660,26 @@ func (g *Gen) PatternChains(allowLeadingOr bool) [][]Call {
 	return out
 }
 
+// InlinePatternChains: every catalogue unit as the inline condition of the finisher, alone and after
+// a Where(atom) / Not(atom) (C02: Find / First / Take / Last / Delete receive it as their condition
+// argument, the other finishers as a last Where).
+func (g *Gen) InlinePatternChains() [][]Call {
+	var out [][]Call
+	for _, u := range g.Catalogue() {
+		c := Call{Kind: "where", Unit: u, Inline: true}
+		pre := Call{Kind: lib.Pick(g.R, []string{"where", "where", "not"}), Unit: g.atomUnit()}
+		out = append(out, []Call{c}, []Call{pre, c})
+	}
+	// a lone clause.Or(x) / clause.And(clause.Or(x, y)) as inline condition
+	at := func() *CExpr { return &CExpr{Kind: "atom", Atom: g.pickPlain().ID} }
+	for _, ce := range []*CExpr{{Kind: "or", Kids: []*CExpr{at()}}, {Kind: "or", Kids: []*CExpr{at(), at()}},
+		{Kind: "and", Kids: []*CExpr{{Kind: "or", Kids: []*CExpr{at(), at()}}}}} {
+		c := Call{Kind: "where", Unit: Unit{Form: "expr", CE: ce}, Inline: true}
+		out = append(out, []Call{{Kind: "where", Unit: g.atomUnit()}, c})
+	}
+	return out
+}
+
 // FullAtoms: one atom of every operator, with bounds that occur in the data (ages 0..5), so that
 // every NegationBuild (<> / >= / <= / > / < / NOT LIKE / NOT IN / IS NOT NULL) is exercised on
 // boundary rows.
